@@ -308,7 +308,28 @@ func dictAwarePayload(r *sim.Rng, dictCap, bufSize int) sim.Payload {
 		dictCap = 4096
 	}
 	d := dictCap + r.Range(-1, 1)
-	switch r.Intn(4) {
+	switch r.Intn(5) {
+	case 4:
+		// data of a short period over a tiny alphabet (zero bytes included)
+		// that runs 1-3 bytes past the point where an LZMA2 chunk must end (a
+		// chunk holds at most dictCap bytes when the dictionary is smaller than
+		// 64 KiB), then something else: the match is cut by the chunk end and
+		// the next chunk starts with literals that equal their match byte
+		per := r.Bytes(r.Range(2, 1200))
+		for i := range per {
+			per[i] %= byte(r.Range(2, 4))
+		}
+		n := dictCap*r.Range(1, 2) + r.Range(1, 3)
+		b := make([]byte, 0, n+400)
+		for len(b) < n {
+			b = append(b, per[len(b)%len(per)])
+		}
+		b[len(b)-1] = per[(len(b)-1)%len(per)]
+		tail := r.Bytes(r.Range(10, 300))
+		for i := range tail {
+			tail[i] = 'a' + tail[i]%16
+		}
+		return sim.Lit(append(b, tail...))
 	case 0:
 		return sim.Payload{Kind: "dup", Parts: []sim.Payload{{Kind: "prng", N: d, Seed: r.Uint64()}}}
 	case 1:
